@@ -91,8 +91,29 @@ func Index(i int) Elem    { return Elem{Kind: "index", Value: fmt.Sprint(i)} }
 func Field(s string) Elem { return Elem{Kind: "field", Value: s} }
 `
 
+// WorldFiles renders every input file of the world (everything except the runtime and the
+// harness library, which always come from /verif).
+func (s *Spec) WorldFiles() map[string]string {
+	files := map[string]string{
+		"w/types.go":       s.TypesSource(),
+		"w/conv.go":        s.ConverterSource(),
+		"run/main_test.go": s.TestSource(),
+	}
+	if len(s.Enums) > 0 {
+		files["w/te/te.go"] = s.EnumTargetSource()
+	}
+	if s.Wrap == "wrapErrorsUsing" {
+		files["w/perr/perr.go"] = perrSource
+	}
+	return files
+}
+
 // materialise writes the world module (without generated code).
 func materialise(dir string, s *Spec) error {
+	return materialiseFiles(dir, s.WorldFiles())
+}
+
+func materialiseFiles(dir string, files map[string]string) error {
 	if err := rt.WriteRuntime(filepath.Join(dir, "verifsim")); err != nil {
 		return err
 	}
@@ -100,19 +121,8 @@ func materialise(dir string, s *Spec) error {
 	if err := writeFile(filepath.Join(dir, "go.mod"), gomod); err != nil {
 		return err
 	}
-	if err := writeFile(filepath.Join(dir, "w", "types.go"), s.TypesSource()); err != nil {
-		return err
-	}
-	if err := writeFile(filepath.Join(dir, "w", "conv.go"), s.ConverterSource()); err != nil {
-		return err
-	}
-	if len(s.Enums) > 0 {
-		if err := writeFile(filepath.Join(dir, "w", "te", "te.go"), s.EnumTargetSource()); err != nil {
-			return err
-		}
-	}
-	if s.Wrap == "wrapErrorsUsing" {
-		if err := writeFile(filepath.Join(dir, "w", "perr", "perr.go"), perrSource); err != nil {
+	for p, c := range files {
+		if err := writeFile(filepath.Join(dir, filepath.FromSlash(p)), c); err != nil {
 			return err
 		}
 	}
@@ -127,7 +137,7 @@ func materialise(dir string, s *Spec) error {
 			return err
 		}
 	}
-	return writeFile(filepath.Join(dir, "run", "main_test.go"), s.TestSource())
+	return nil
 }
 
 // TestSource renders the per-world test file that registers the generated methods.
@@ -261,9 +271,17 @@ func (e *Engine) Close() {
 
 // BuildWorld materialises, generates, rewrites and compiles one world.
 func (e *Engine) BuildWorld(s *Spec, idx int) (*worldResult, error) {
-	dir := filepath.Join(e.Scratch, fmt.Sprintf("world-%s-%d", s.Prop, idx))
-	res := &worldResult{Seed: s.Seed, Spec: s, Dir: dir}
-	if err := materialise(dir, s); err != nil {
+	return e.buildWorldFiles(s, s.Prop, s.WorldFiles(), idx)
+}
+
+// buildWorldFiles builds a world from explicit files (s may be nil: replay of a recorded world).
+func (e *Engine) buildWorldFiles(s *Spec, prop string, files map[string]string, idx int) (*worldResult, error) {
+	dir := filepath.Join(e.Scratch, fmt.Sprintf("world-%s-%d", prop, idx))
+	res := &worldResult{Spec: s, Dir: dir}
+	if s != nil {
+		res.Seed = s.Seed
+	}
+	if err := materialiseFiles(dir, files); err != nil {
 		return nil, &vnode.BuildError{Msg: err.Error()}
 	}
 	out, err := goRun(dir, nil, e.Goverter, "gen", "./w")
@@ -275,20 +293,20 @@ func (e *Engine) BuildWorld(s *Spec, idx int) (*worldResult, error) {
 		}
 		return nil, &vnode.BuildError{Msg: "goverter run: " + err.Error() + "\n" + out}
 	}
-	files := generatedFiles(dir, s)
-	if len(files) == 0 {
+	gfiles := generatedFiles(dir, s)
+	if len(gfiles) == 0 {
 		return nil, &vnode.BuildError{Msg: "goverter wrote no files in " + dir}
 	}
 	if e.PostGen != nil {
-		if err := e.PostGen(files); err != nil {
+		if err := e.PostGen(gfiles); err != nil {
 			return nil, &vnode.BuildError{Msg: err.Error()}
 		}
 	}
 	only := map[string]bool{}
-	for _, f := range files {
+	for _, f := range gfiles {
 		only[f] = true
 	}
-	if _, err := seam.Rewrite(seam.Options{Dir: dir, Patterns: []string{"./w/..."}, Env: vnode.GoEnv(), FirstSite: 1000, Yields: s.Prop == "C04", OnlyFiles: only, RelTo: dir}); err != nil {
+	if _, err := seam.Rewrite(seam.Options{Dir: dir, Patterns: []string{"./w/..."}, Env: vnode.GoEnv(), FirstSite: 1000, Yields: prop == "C04", OnlyFiles: only, RelTo: dir}); err != nil {
 		// generated code that does not compile is C01's subject: skip the world
 		res.Rejected = true
 		res.RejectMsg = "generated code does not load: " + err.Error()
@@ -532,7 +550,7 @@ func Check(id, tier string, seed uint64, repo, vd string) (*gensim.Outcome, erro
 			}
 			seenKey[key] = true
 			rp := &convReplay{Property: id, Class: class, Msg: msg, Key: key, Engine: "convsim", Seed: seed, World: r.Seed, Output: trim(output, 6000),
-				Files: map[string]string{"w/types.go": r.Spec.TypesSource(), "w/conv.go": r.Spec.ConverterSource()}}
+				Files: r.Spec.WorldFiles()}
 			if failfile != "" {
 				if b, err := os.ReadFile(failfile); err == nil {
 					rp.FailFile = string(b)
@@ -786,8 +804,13 @@ func Replay(path, repo, vd string) (int, error) {
 		return 2, err
 	}
 	defer e.Close()
-	s := NewSpec(rp.World, rp.Property)
-	r, err := e.BuildWorld(s, 0)
+	// the recorded input files are authoritative (the world generator may have changed since)
+	var r *worldResult
+	if _, ok := rp.Files["run/main_test.go"]; ok {
+		r, err = e.buildWorldFiles(nil, rp.Property, rp.Files, 0)
+	} else {
+		r, err = e.BuildWorld(NewSpec(rp.World, rp.Property), 0)
+	}
 	if err != nil {
 		return 2, err
 	}
@@ -796,6 +819,7 @@ func Replay(path, repo, vd string) (int, error) {
 		return 0, nil
 	}
 	if rp.Class == "missing-error-result-accepted" {
+		r.Spec = NewSpec(rp.World, rp.Property)
 		if err := e.checkNoErrClause(r, 0); err != nil {
 			return 2, err
 		}
